@@ -187,6 +187,35 @@ static void run_threads(vh_rng *r, int n, int alive) {
 	}
 }
 
+/* ---------------- the last two references dropped at the same instant by two threads ---------------- */
+static pthread_barrier_t ubar; static PUThread *u_target; static HEnt *u_ent;
+static void *unref_racer(void *a) { (void)a; pthread_barrier_wait(&ubar); if (u_ent) h_unref(u_ent, u_target); else p_uthread_unref(u_target); return NULL; }
+static ppointer quick_body(ppointer a) { HEnt *e = a; if (e) e->finished = 1; return NULL; }
+static long long st_concurrent_unrefs;
+static void run_concurrent_unref(int rounds) {
+	int k;
+	for (k = 0; k < rounds && vh_nviol < vh_max_viol; k++) {
+		pthread_t a, b; HEnt *e = NULL; PUThread *t;
+		scen = "concurrent-unref";
+#ifndef HB_MODE
+		e = h_register(NULL, 1);
+#endif
+		t = p_uthread_create(quick_body, e, TRUE, NULL);
+		if (!t) { if (e) e->live = 0; continue; }
+		if (e) { pthread_mutex_lock(&hmu); e->addr = t; pthread_mutex_unlock(&hmu); }
+		p_uthread_join(t);                                     /* the thread's own reference is gone or about to go */
+		if (e) h_ref(e, t); else p_uthread_ref(t);             /* two harness references */
+		u_target = t; u_ent = e; pthread_barrier_init(&ubar, NULL, 2);
+		__real_pthread_create(&a, NULL, unref_racer, NULL); __real_pthread_create(&b, NULL, unref_racer, NULL);
+		pthread_join(a, NULL); pthread_join(b, NULL); pthread_barrier_destroy(&ubar);
+		if (e) { if (!wait_until(NULL, pred_freed, e, 3000)) viol("handle-never-freed", "handle not released after two concurrent unrefs dropped the last references"); e->live = 0; }
+#ifndef HB_MODE
+		if (va_bad_free) { viol("double-free", "handle block released twice when the last two references were dropped concurrently (%lld frees of dead blocks)", va_bad_free); va_bad_free = 0; }
+#endif
+		st_concurrent_unrefs++;
+	}
+}
+
 /* ---------------- first-use race on a fresh TLS key ---------------- */
 static PUThreadKey *race_key; static pthread_barrier_t rbar; static long long race_wrong;
 static ppointer race_fn(ppointer a) {
@@ -260,13 +289,14 @@ int main(int argc, char **argv) {
 	key_a = p_uthread_local_new(tv_destroy); key_b = p_uthread_local_new(tv_destroy);
 	inj_on = !vh_flag(argc, argv, "--no-delays");
 	run_threads(&r, n, alive);
+	run_concurrent_unref((int)vh_argi(argc, argv, "--unref-races", 300));
 	run_first_use(&r, races, alive < 4 ? 4 : alive);
 	run_foreign(foreign);
 	inj_on = 0;
 	p_uthread_local_free(key_a); p_uthread_local_free(key_b);
 	p_libsys_shutdown();
 	printf("{\"ev\":\"stats\",\"threads\":%lld,\"joined\":%lld,\"detached\":%lld,\"explicit_refs\":%lld,\"handles_freed_by_harness_unref\":%lld,\"handles_freed_at_thread_exit\":%lld,\"tls_threads\":%lld,"
-	       "\"first_use_races\":%lld,\"foreign_threads\":%lld,\"delayed_thread_starts\":%lld,\"delayed_creators\":%lld,\"viol\":%d,\"wall\":%.2f}\n",
-	       st_threads, st_joined, st_detached, st_refs, st_freed_by_unref, st_freed_at_exit, st_tls_threads, st_first_use_races, st_foreign, inj_start_delays, inj_creator_delays, vh_nviol, vh_now() - t0);
+	       "\"first_use_races\":%lld,\"concurrent_unref_races\":%lld,\"foreign_threads\":%lld,\"delayed_thread_starts\":%lld,\"delayed_creators\":%lld,\"viol\":%d,\"wall\":%.2f}\n",
+	       st_threads, st_joined, st_detached, st_refs, st_freed_by_unref, st_freed_at_exit, st_tls_threads, st_first_use_races, st_concurrent_unrefs, st_foreign, inj_start_delays, inj_creator_delays, vh_nviol, vh_now() - t0);
 	return 0;
 }
